@@ -25,7 +25,7 @@ RULE = ("case = (matrix a, matrix b, ignore settings (comments, attributes, defi
         "(frame: added/deleted/length/id/format/name/comment/sender/attribute/signal group; signal: added/deleted/renamed/start/width/"
         "factor/offset/min/max/byte order/sign/multiplex/unit/comment/receiver/attribute/value table; ECU: added/deleted/comment/"
         "attribute; definitions of all four kinds: added/deleted/definition/default; global attribute; global value table), or an "
-        "The two matrices are compared in both orders, and once more, as the same objects. unrelated matrix; both operand orders are compared. Numbers include values around 2^32 (the next half step differs in the tenth digit), value texts include characters outside ASCII, frames added with the number of an existing frame in the other format, definitions edited inside their type (ENUM values, INT range). Frame lengths are 0..8, every length up to 64 bytes and a few longer ones (a length edit goes to a usual length, to a neighbour one or two bytes away, or to any length); signals of longer frames start anywhere in them. Signals share their bits (start, width, byte order) with other signals of the frame - other multiplexer groups or plain overlaps - in generated frames, as the added signal (signal.add-overlay) and as the deleted one; signals are renamed; added frames, signals, ECUs, definitions, value tables and signal groups are also copies of existing ones under a new name. One case in five is compared after one to three other comparisons (other operands, other ignore settings) in the same process. A second stream goes through the command line canmatrix.cli.compare: the two matrices (made expressible in DBC: every attribute defined, one multiplexer per frame) are written to files, the case describes what a reader gets from the files, and cli_compare is invoked in a forked child process - by main(args), by click's CliRunner or by its callback, switches -c/-a/-t in short or long spelling - on a b and on b a, after zero to three earlier invocations with other switches, other operand orders or --frames; the printed report is held against the library comparison of the same files under the ignore settings the switches stand for, and is itself the observation when it differs. The meaning of the switches (op flags) is observed on fourteen probe file pairs that differ in one comment / attribute / definition / value table entry, again after earlier invocations. Attributes and definitions are also called like a member of the class of the object that carries them (Signal.unit, Frame.cycle_time, Ecu.comment ... taken from the classes), like a member of another class or like a node label of the report; an attribute edit (added anywhere / deleted / value changed, any attribute of the object) also hits one object drawn from all attribute-carrying objects of the matrix (edit kind attr); two of the probe pairs differ in such an attribute; defaults written to files are of their definition's type. Units are drawn from a list with characters outside ASCII (superscripts, micro / ohm / kelvin / degree signs and the letters that look like them, umlauts); an edit of a unit, a comment, a value text or an attribute value is - one time in three, units one time in two - an edit to a near text: the same text in another Unicode spelling (compatibility pairs such as superscript two and 2, micro sign and mu; composed and decomposed letters), another case or other white space. For half of the library comparisons the ignore settings are given as another dict that says the same: switches that are on by another true value, switches that are off present with a value that leaves them off (VALUETABLES: False / None / 0 / '', ATTRIBUTE and DEFINE likewise), keys the comparison does not know, None or no argument when nothing is ignored. Non-trivial = distinct case with b != a.")
+        "The two matrices are compared in both orders, and once more, as the same objects. unrelated matrix; both operand orders are compared. The same enumeration is attached to many signals: in two matrices out of three one or two enumerations (raw values with texts) are given to about half of the signals of the matrix, with the same texts or with the same raw values and other texts, in any order of the entries (global value tables one time in four); a value text edit hits any entry, half of the time of a signal whose table has the raw values of another signal's table. In one library case in five the frames are also compared one by one through compare_frame called directly - after the frame was compared with itself, after the partner was compared with itself and the frame with the previous partner, or with no other call - and what compare_frame says about a pair is held against what compare_db lists for it (it is the observation when it differs). Numbers include values around 2^32 (the next half step differs in the tenth digit), value texts include characters outside ASCII, frames added with the number of an existing frame in the other format, definitions edited inside their type (ENUM values, INT range). Frame lengths are 0..8, every length up to 64 bytes and a few longer ones (a length edit goes to a usual length, to a neighbour one or two bytes away, or to any length); signals of longer frames start anywhere in them. Signals share their bits (start, width, byte order) with other signals of the frame - other multiplexer groups or plain overlaps - in generated frames, as the added signal (signal.add-overlay) and as the deleted one; signals are renamed; added frames, signals, ECUs, definitions, value tables and signal groups are also copies of existing ones under a new name. One case in five is compared after one to three other comparisons (other operands, other ignore settings) in the same process. A second stream goes through the command line canmatrix.cli.compare: the two matrices (made expressible in DBC: every attribute defined, one multiplexer per frame) are written to files, the case describes what a reader gets from the files, and cli_compare is invoked in a forked child process - by main(args), by click's CliRunner or by its callback, switches -c/-a/-t in short or long spelling - on a b and on b a, after zero to three earlier invocations with other switches, other operand orders or --frames; the printed report is held against the library comparison of the same files under the ignore settings the switches stand for, and is itself the observation when it differs. The meaning of the switches (op flags) is observed on fourteen probe file pairs that differ in one comment / attribute / definition / value table entry, again after earlier invocations. Attributes and definitions are also called like a member of the class of the object that carries them (Signal.unit, Frame.cycle_time, Ecu.comment ... taken from the classes), like a member of another class or like a node label of the report; an attribute edit (added anywhere / deleted / value changed, any attribute of the object) also hits one object drawn from all attribute-carrying objects of the matrix (edit kind attr); two of the probe pairs differ in such an attribute; defaults written to files are of their definition's type. Units are drawn from a list with characters outside ASCII (superscripts, micro / ohm / kelvin / degree signs and the letters that look like them, umlauts); an edit of a unit, a comment, a value text or an attribute value is - one time in three, units one time in two - an edit to a near text: the same text in another Unicode spelling (compatibility pairs such as superscript two and 2, micro sign and mu; composed and decomposed letters), another case or other white space. For half of the library comparisons the ignore settings are given as another dict that says the same: switches that are on by another true value, switches that are off present with a value that leaves them off (VALUETABLES: False / None / 0 / '', ATTRIBUTE and DEFINE likewise), keys the comparison does not know, None or no argument when nothing is ignored. Non-trivial = distinct case with b != a.")
 PARTIAL = ["numeric fields are compared as doubles by the code; generated values are multiples of 0.5 (exactly representable), "
            "modelled as integers", "the ref/changes payload of result nodes (object references, old/new texts) is not compared, only "
            "(result, type) and the tree shape", "cancompare's stdout is compared as text with dump_result of the library's tree for the same files; when it differs, the tree read back "
@@ -196,10 +196,43 @@ def gen_defs(rng, level=None):
 def gen_matrix(rng, tag=""):
     ids = rng.sample([(0x10, False), (0x11, False), (0x18FEF100, True), (0x20, False), (0x21, False)], rng.randint(0, 4))
     frames = [gen_frame(rng, "F%x%s" % (i, tag), i, e) for i, e in ids]
-    return {"frames": frames, "ecus": [[e, rng.choice([None, "ec", "ecu comment"]), kv(rng, 0.3, "ecu")] for e in ECUS if rng.random() < 0.6],
+    m = {"frames": frames, "ecus": [[e, rng.choice([None, "ec", "ecu comment"]), kv(rng, 0.3, "ecu")] for e in ECUS if rng.random() < 0.6],
             "attrs": kv(rng, 0.4, "global"), "gd": gen_defs(rng, "global"), "ed": gen_defs(rng, "ecu"), "fd": gen_defs(rng, "frame"),
             "sd": gen_defs(rng, "signal"),
             "vt": [["VT%d" % k, [[j, rng.choice(["a", "b"])] for j in range(rng.randint(0, 3))]] for k in range(rng.choice([0, 0, 1, 2]))]}
+    share_enumerations(rng, m)
+    return m
+
+
+VALUE_TEXTS = ["On", "Off", "Err", "ge\u00f6ffnet", "10 \u00b5s"]
+
+
+def share_enumerations(rng, m):
+    """the same enumeration (on/off, error/not available, positions ...) is attached to many signals of a matrix: in two matrices out
+    of three one or two enumerations (a set of raw values with its texts) are drawn and given to about half of the signals, anywhere in
+    the matrix - with the very same texts, or (one time in four) with the same raw values and texts of their own, in any order of
+    the entries.  Global value tables take part one time in four."""
+    if rng.random() < 0.34:
+        return
+    enums = []
+    for _ in range(rng.choice([1, 1, 2])):
+        keys = rng.sample(range(6), rng.choice([1, 2, 2, 3]))
+        enums.append([[k, rng.choice(VALUE_TEXTS)] for k in keys])
+    def one():
+        e = pycopy.deepcopy(rng.choice(enums))
+        if rng.random() < 0.25:
+            for kv_ in e:
+                kv_[1] = rng.choice(VALUE_TEXTS)
+        if rng.random() < 0.25:
+            rng.shuffle(e)
+        return e
+    for f in m["frames"]:
+        for s in f["sigs"]:
+            if rng.random() < 0.55:
+                s["values"] = one()
+    for t in m["vt"]:
+        if rng.random() < 0.25:
+            t[1] = [[k, rng.choice(["a", "b"])] for k, _ in one()]
 
 
 def edit(rng, a):
@@ -280,7 +313,7 @@ def edit(rng, a):
             return None, None
         f = rng.choice(fs)
         what = rng.choice(["add", "add", "del", "del", "name", "start", "size", "factor", "offset", "min", "max", "little", "signed", "multiplex", "mux0",
-                           "unit", "unit", "comment", "rx+", "rx-", "attr", "val+", "val-", "valchg"])
+                           "unit", "unit", "comment", "rx+", "rx-", "attr", "val+", "val-", "valchg", "valchg"])
         if what == "add":
             new = gen_sig(rng, "snew", f["size"])
             r = rng.random()
@@ -355,12 +388,18 @@ def edit(rng, a):
         elif what == "valchg":
             if not s["values"]:
                 return None, None
+            # the text of one entry, any entry; (half of the time) of a signal whose table has the raw values of another signal's table
+            same = [x for x in f["sigs"] if x["values"] and any(y is not x and sorted(k for k, _ in y["values"]) == sorted(k for k, _ in x["values"])
+                                                                 for g in b["frames"] for y in g["sigs"])]
+            if same and rng.random() < 0.5:
+                s = rng.choice(same)
+            e = rng.choice(s["values"])
             if rng.random() < 0.5:
-                s["values"][0][1] = edited_text(rng, s["values"][0][1], s["values"][0][1] + "X")
+                e[1] = edited_text(rng, e[1], e[1] + "X")
             else:
                 # a text that differs in characters outside ASCII only
-                t = s["values"][0][1]
-                s["values"][0][1] = t.replace("\u00f6", "\u00e4").replace("\u00b5", "\u03bc") if any(ord(ch) > 127 for ch in t) else t + "\u00b5"
+                t = e[1]
+                e[1] = t.replace("\u00f6", "\u00e4").replace("\u00b5", "\u03bc") if any(ord(ch) > 127 for ch in t) else t + "\u00b5"
         return b, "signal." + what
     if kind == "ecu":
         what = rng.choice(["add", "del", "comment", "attr"])
@@ -522,6 +561,9 @@ def gen(rng, tier, shard, nshards):
         if rng.random() < 0.5:
             # the ignore settings as another dict that says the same
             case["c"]["igndict"] = gen_igndict(rng, case["c"]["ign"])
+        if rng.random() < 0.2:
+            # the frames are also compared one by one through compare_frame, after other direct calls
+            case["c"]["direct"] = rng.choice(["self", "self", "other", "none"])
         yield case
     # the same comparison through the command line (canmatrix.cli.compare), on files, after a history of other invocations
     for _ in range({"quick": 320, "thorough": 4800}[tier] // nshards):
@@ -1035,7 +1077,46 @@ def observe(case):
     again = tree(canmatrix.compare.compare_db(A, B, *args))
     if again != ab:
         return {"ab": again, "ba": ba, "note": "comparing the same two matrices again gives another result"}
+    if c.get("direct"):
+        # the frame level of the public API called directly (compare_frame), the way a caller does who is interested in some
+        # frames only: each frame of a is first compared with itself, then with its partner in b; what compare_frame says about the
+        # pair is what compare_db lists for it (frame i of a is child i of the result)
+        direct = direct_frames(A, B, args, c["direct"])
+        diff = [i for i, t in direct if t != ab[2][i]]
+        if diff:
+            kids = list(ab[2])
+            for i, t in direct:
+                kids[i] = t
+            root = "changed" if any(k[0] != "equal" for k in kids) else ab[0]
+            return {"ab": [root, ab[1], kids], "ba": ba,
+                    "note": "compare_frame called directly (after %s) says something else about frame(s) %s than compare_db lists for them; "
+                            "its answer is the observation" % (c["direct"], diff)}
     return {"ab": ab, "ba": ba}
+
+
+def direct_frames(A, B, args, how):
+    """[(index of the frame in A, tree of compare_frame(frame, partner in B))] for the frames of A that compare_db pairs with a frame
+    of B (by name, else by identifier), each after the earlier direct calls `how` names: "self" = the frame with itself, "other" =
+    the partner with itself and the frame with the previous partner, "none" = no other call"""
+    out = []
+    prev = None
+    for i, f1 in enumerate(A.frames):
+        f2 = B.frame_by_name(f1.name)
+        if f2 is None:
+            f2 = B.frame_by_id(f1.arbitration_id)
+        if f2 is None:
+            continue
+        if how == "self":
+            canmatrix.compare.compare_frame(f1, f1, *args)
+        elif how == "other":
+            canmatrix.compare.compare_frame(f2, f2, *args)
+            if prev is not None:
+                canmatrix.compare.compare_frame(f1, prev, *args)
+        r = canmatrix.compare.compare_frame(f1, f2, *args)
+        canmatrix.compare.propagate_changes(r)
+        out.append((i, tree(r)))
+        prev = f2
+    return out
 
 
 def project(impl):
@@ -1058,6 +1139,8 @@ def features(case, impl):
                 yield "cli: earlier invocation with other switches"
         else:
             yield "path=library, %d earlier comparisons" % len(case["c"].get("pre", []))
+            if case["c"].get("direct"):
+                yield "compare_frame called directly (earlier direct calls: %s)" % case["c"]["direct"]
             if "igndict" in case["c"]:
                 sp = case["c"]["igndict"]
                 if sp is None:
